@@ -61,9 +61,25 @@ func c20NewReplica() *c20Replica {
 // applied through applyUpdate (journal) and ApplyEvent (indexes)
 func (r *c20Replica) sync(src *JournalFast) {
 	var ret tlmetadata.GetJournalResponsenew
-	src.getJournalDiffLocked3(r.j.loaderVersion, &ret)
-	r.j.applyUpdate(ret.Events, ret.CurrentVersion, nil)
+	if c20MaxItems == 0 {
+		src.getJournalDiffLocked3(r.j.loaderVersion, &ret)
+		r.j.applyUpdate(ret.Events, ret.CurrentVersion, nil)
+		return
+	}
+	// partial deliveries: responses limited to a few items / bytes, repeated while the replica is behind;
+	// a response to a replica that is behind always carries at least one event (else it would wait forever)
+	for round := 0; round < 6 && r.j.loaderVersion < src.currentVersion; round++ {
+		src.getJournalDiffLocked3Limits(r.j.loaderVersion, &ret, c20MaxItems, c20MaxBytes)
+		v.Assert("C20.partial.response_to_a_replica_behind_is_not_empty", len(ret.Events) > 0)
+		if len(ret.Events) == 0 {
+			break
+		}
+		r.j.applyUpdate(ret.Events, ret.CurrentVersion, nil)
+	}
 }
+
+// response limits for the partial-delivery harness (0 = the production limits)
+var c20MaxItems, c20MaxBytes int
 
 func c20Event(e *c20Entity) tlmetadata.Event {
 	data := "{}"
@@ -185,6 +201,14 @@ func Harness_C20_compact_4steps() {
 	c20History(4, false)
 }
 func Harness_C20_metrics_3steps()        { c20History(3, false) }
+
+// the same history delivered in partial responses: at most 1 or 2 items per response, byte budget 1
+// (smaller than any event), 100 (about one event) or 1 MB
+func Harness_C20_metrics_3steps_partial() {
+	c20MaxItems = 1 + v.Choice(2)
+	c20MaxBytes = []int{1, 100, 1 << 20}[v.Choice(3)]
+	c20History(3, false)
+}
 func Harness_C20_metrics_group_3steps()  { c20History(3, true) }
 func Harness_C20_metrics_4steps()        { c20History(4, false) }
 func Harness_C20_metrics_group_4steps()  { c20History(4, true) }
